@@ -38,6 +38,12 @@ def run_store(ctx, pid, deletes):
     bfs_depth = (5 if deletes else 4) if not thorough else (6 if deletes else 5)
     runs.append(("bfs", dict(spec="GSpecBFS", T=2, depth=bfs_depth, maxlen=2, maxid=3, writers=1, inv="Emit",
                              chansets='{{"I"}, {"I","D","V"}, {"D"}}', deletes=deletes), None, 1, False))
+    if deletes:
+        # 2b. session-granular bounded-exhaustive behaviours: every script of 4 (thorough: 5) macro
+        # steps, a macro step being a writer session (open on the first sample; write; close), a
+        # delete, a GC pass or a reopen
+        runs.append(("sess", dict(spec="GSpecSess", T=2, depth=(5 if thorough else 4), maxlen=3, maxid=4, writers=1, inv="EmitSess",
+                                  chansets='{{"I","D","V"}}', deletes=True), None, 1, False))
     # 3. long random behaviours (simulation), several concretisations each
     scale = int(os.environ.get("VERIF_SCALE", "1"))   # experiments only: multiplies the simulated histories
     n_sim = (14 if not thorough else 150) * scale
@@ -60,11 +66,14 @@ def run_store(ctx, pid, deletes):
             states += r.distinct
             trans += r.generated
         hp = ctx.path("h_%s.ndjson" % tag)
-        n, smp = C.write_hists(r, hp, limit=((60000 if thorough else 12000) if not sim else None), seed=ctx.seed)
+        lim = None
+        if not sim:
+            lim = (60000 if thorough else 12000) if tag == "bfs" else None
+        n, smp = C.write_hists(r, hp, limit=lim, seed=ctx.seed)
         if n == 0:
             raise vlib.Inconclusive("no histories generated (%s)" % tag)
         samples += smp[:1]
-        summ, bad = C.replay_store(ctx, hp, T, "rp_" + tag, nconc=nconc)
+        summ, bad = C.replay_store(ctx, hp, T, "rp_" + tag, nconc=nconc, full=("tail" if tag == "sess" else True))
         total += summ["replays"]
         for k, v in summ.items():
             if isinstance(v, int) and k not in ("summary",):
@@ -86,7 +95,8 @@ def run_store(ctx, pid, deletes):
         "bfs_histories_sampled_to": (60000 if thorough else 12000),
         "design_runs": design,
         "harness_stats": stats,
-        "rule": "TLC behaviours of CesiumStore.tla (bounded-exhaustive to depth %d over T=2, plus simulated scripts of 16 steps "
+        "rule": "TLC behaviours of CesiumStore.tla (bounded-exhaustive to depth %d over T=2; for C04 also every script of writer "
+                "sessions (open; write; close), deletes, GC passes and reopens of 4 macro steps (thorough: 5) over T=2; plus simulated scripts of 16 steps "
                 "over T=4, 2 writers) replayed into a real cesium.DB on MemFS under several concretisations (3 timestamp maps, "
                 "4 fixed + 3 variable data types, 5 file-size caps forcing rollover, lazy/immediate index persistence, GC "
                 "thresholds); after EVERY step every channel is read over EVERY half-open range of abstract times and "
